@@ -24,7 +24,11 @@ CLAIMED = {
              "raw nodes and the database, root store) threaded over a whole history returns the executor's root hashes and a database "
              "answering every lookup alike (Raw.history_is_world_run), and the database-level get on that root and database returns the "
              "map model's value for every key (Raw.history_get): C01 end to end over transcriptions one statement away from the code; the "
-             "same for the database a PRUNING trie leaves behind (Raw.pruned_db_get). "
+             "same for the database a PRUNING trie leaves behind (Raw.pruned_db_get). The TREE-FREE executor (Model/HexFree.lean: a trie is a root "
+             "hash and a prune flag over a database; raw-level _set/_delete produce the events, the pruning bookkeeping applies them) "
+             "computes, operation by operation and over whole histories, exactly the state and roots of the tree-carrying executor "
+             "(Free.op_is_executor_op - no run-level hypothesis -, Free.run_is_executor_run) and its get returns the map model's "
+             "value (Free.run_get). "
              "Tie: get() after every operation of generated histories (4 configurations) equals the model's; the raw-level run is "
              "driven alongside fresh non-pruning tries (root after every op, final database, lookups).",
         technique="Lean 4 proof (induction over histories on a tree model) + correspondence check of model vs code",
@@ -74,8 +78,11 @@ CLAIMED = {
              "effect layer (Raw.set_refines / delete_refines). Bodies, not only keys: under the run-level no-collision predicate the "
              "pruned database is complete for the current root - every live node stored with its encoding - after every operation "
              "and history (Raw.prune_op_keeps_complete, pruned_db_complete), hence the raw-level reader (get over rlp-decoded nodes "
-             "fetched from the pruned database) returns the map model's value for every key (Raw.pruned_db_get). Tie: exact key set, "
-             "counts, regenerate_ref_count after every operation; the raw-level reader on the model's pruned database after every op.",
+             "fetched from the pruned database) returns the map model's value for every key (Raw.pruned_db_get). The tree-free executor "
+             "(root hash + database only) reaches exactly these states: its counts are the true reference counts, its database holds "
+             "exactly the live nodes with their encodings (Free.run_pruning_exact, Free.op_is_executor_op). Tie: exact key set, "
+             "counts, regenerate_ref_count after every operation; the raw-level reader on the model's pruned database after every op; the "
+             "tree-free executor alongside every direct operation (outcome, root, full database, counts).",
         technique="Lean 4 proof (structural induction, balance invariant) + correspondence check",
         design_ref="6/C06"),
     "C03": dict(
